@@ -79,6 +79,16 @@ impl ParsedProgram {
   }
 
   pub fn from_bytes(bytes: &[u8]) -> MResult<ParsedProgram> {
+    // The section decoders index and unwrap on the assumption of a well formed
+    // file; a malformed file must surface as an error, not as a panic in the host.
+    #[cfg(not(feature = "no_std"))]
+    {
+      match std::panic::catch_unwind(|| load_program_from_bytes(bytes)) {
+        Ok(result) => result,
+        Err(_) => Err(MechError::new(MalformedBytecodeError, None).with_compiler_loc()),
+      }
+    }
+    #[cfg(feature = "no_std")]
     load_program_from_bytes(bytes)
   }
 
@@ -117,6 +127,18 @@ impl ParsedProgram {
   }
 
   pub fn decode_const_entries(&self) -> MResult<Vec<Value>> {
+    #[cfg(not(feature = "no_std"))]
+    {
+      match std::panic::catch_unwind(std::panic::AssertUnwindSafe(|| self.decode_const_entries_unguarded())) {
+        Ok(result) => result,
+        Err(_) => Err(MechError::new(MalformedBytecodeError, None).with_compiler_loc()),
+      }
+    }
+    #[cfg(feature = "no_std")]
+    self.decode_const_entries_unguarded()
+  }
+
+  fn decode_const_entries_unguarded(&self) -> MResult<Vec<Value>> {
     let mut out = Vec::with_capacity(self.const_entries.len());
     let blob_len = self.const_blob.len() as u64;
 
@@ -168,7 +190,10 @@ impl ParsedProgram {
       let data = self.const_blob[start .. start + len].to_vec();
 
       // get the type from the id
-      let ty = &self.types.entries[const_entry.type_id as usize];
+      let ty = match self.types.entries.get(const_entry.type_id as usize) {
+        Some(ty) => ty,
+        None => return Err(MechError::new(ConstantEntryOutOfBoundsError, None).with_compiler_loc()),
+      };
 
       let val: Value = match ty.tag {
         #[cfg(feature = "bool")]
@@ -513,6 +538,16 @@ pub fn load_program_from_bytes(bytes: &[u8]) -> MResult<ParsedProgram> {
   load_program_from_reader(&mut cur, total_len)
 }
 
+// A section can never be longer than the file that holds it: checking the
+// declared length before allocating keeps a hostile header from requesting
+// arbitrary amounts of memory.
+fn section_len(len: u64, total_len: u64) -> MResult<usize> {
+  if len > total_len {
+    return Err(MechError::new(FileTooShortError { total_len, expected_len: len }, None).with_compiler_loc());
+  }
+  Ok(len as usize)
+}
+
 fn load_program_from_reader<R: Read + Seek>(r: &mut R, total_len: u64) -> MResult<ParsedProgram> {
   r.seek(SeekFrom::Start(0))?;
   let mut header_buf = vec![0u8; ByteCodeHeader::HEADER_SIZE];
@@ -532,7 +567,7 @@ fn load_program_from_reader<R: Read + Seek>(r: &mut R, total_len: u64) -> MResul
 
   // 2. read features
   let mut features = Vec::new();
-  if header.feature_off != 0 && header.feature_off + 4 <= total_len.saturating_sub(4) {
+  if header.feature_off != 0 && header.feature_off.saturating_add(4) <= total_len.saturating_sub(4) {
     r.seek(SeekFrom::Start(header.feature_off))?;
     let c = r.read_u32::<LittleEndian>()? as usize;
     for _ in 0..c {
@@ -543,14 +578,14 @@ fn load_program_from_reader<R: Read + Seek>(r: &mut R, total_len: u64) -> MResul
 
   // 3. read types
   let mut types = TypeSection::new();
-  if header.types_off != 0 && header.types_off + 4 <= total_len.saturating_sub(4) {
+  if header.types_off != 0 && header.types_off.saturating_add(4) <= total_len.saturating_sub(4) {
     r.seek(SeekFrom::Start(header.types_off))?;
     let types_count = r.read_u32::<LittleEndian>()? as usize;
     for _ in 0..types_count {
       let tag = r.read_u16::<LittleEndian>()?;
       let _reserved = r.read_u16::<LittleEndian>()?; // reserved, always 0
       let _version = r.read_u32::<LittleEndian>()?; // version, always 1
-      let bytes_len = r.read_u32::<LittleEndian>()? as usize;
+      let bytes_len = section_len(r.read_u32::<LittleEndian>()? as u64, total_len)?;
       let mut bytes = vec![0u8; bytes_len];
       r.read_exact(&mut bytes)?;
       if let Some(tag) = TypeTag::from_u16(tag) {
@@ -568,17 +603,22 @@ fn load_program_from_reader<R: Read + Seek>(r: &mut R, total_len: u64) -> MResul
   let mut const_entries = Vec::new();
   if header.const_tbl_off != 0 && header.const_tbl_len > 0 {
     r.seek(SeekFrom::Start(header.const_tbl_off))?;
-    let mut tbl_bytes = vec![0u8; header.const_tbl_len as usize];
+    let mut tbl_bytes = vec![0u8; section_len(header.const_tbl_len, total_len)?];
     r.read_exact(&mut tbl_bytes)?;
     let cur = Cursor::new(&tbl_bytes[..]);
-    const_entries = parse_const_entries(cur, header.const_count as usize)?;
+    // every entry occupies 24 bytes, so the table bounds the number of entries
+    let const_count = (header.const_count as usize).min(tbl_bytes.len() / 24 + 1);
+    if const_count != header.const_count as usize {
+      return Err(MechError::new(FileTooShortError { total_len, expected_len: header.const_count as u64 * 24 }, None).with_compiler_loc());
+    }
+    const_entries = parse_const_entries(cur, const_count)?;
   }
 
   // read const blob
   let mut const_blob = vec![];
   if header.const_blob_off != 0 && header.const_blob_len > 0 {
     r.seek(SeekFrom::Start(header.const_blob_off))?;
-    const_blob.resize(header.const_blob_len as usize, 0);
+    const_blob.resize(section_len(header.const_blob_len, total_len)?, 0);
     r.read_exact(&mut const_blob)?;
   }
 
@@ -587,7 +627,7 @@ fn load_program_from_reader<R: Read + Seek>(r: &mut R, total_len: u64) -> MResul
   let mut mutable_symbols = HashSet::new();
   if header.symbols_off != 0 && header.symbols_len > 0 {
     r.seek(SeekFrom::Start(header.symbols_off))?;
-    let mut symbols_bytes = vec![0u8; header.symbols_len as usize];
+    let mut symbols_bytes = vec![0u8; section_len(header.symbols_len, total_len)?];
     r.read_exact(&mut symbols_bytes)?;
     let mut cur = Cursor::new(&symbols_bytes[..]);
     for _ in 0..(header.symbols_len / 12) {
@@ -605,7 +645,7 @@ fn load_program_from_reader<R: Read + Seek>(r: &mut R, total_len: u64) -> MResul
   let mut instr_bytes = vec![];
   if header.instr_off != 0 && header.instr_len > 0 {
     r.seek(SeekFrom::Start(header.instr_off))?;
-    instr_bytes.resize(header.instr_len as usize, 0);
+    instr_bytes.resize(section_len(header.instr_len, total_len)?, 0);
     r.read_exact(&mut instr_bytes)?;
   }
 
@@ -613,12 +653,12 @@ fn load_program_from_reader<R: Read + Seek>(r: &mut R, total_len: u64) -> MResul
   let mut dictionary = HashMap::new();
   if header.dict_off != 0 && header.dict_len > 0 {
     r.seek(SeekFrom::Start(header.dict_off))?;
-    let mut dict_bytes = vec![0u8; header.dict_len as usize];
+    let mut dict_bytes = vec![0u8; section_len(header.dict_len, total_len)?];
     r.read_exact(&mut dict_bytes)?;
     let mut cur = Cursor::new(&dict_bytes[..]);
     while cur.position() < dict_bytes.len() as u64 {
       let id = cur.read_u64::<LittleEndian>()?;
-      let name_len = cur.read_u32::<LittleEndian>()? as usize;
+      let name_len = section_len(cur.read_u32::<LittleEndian>()? as u64, dict_bytes.len() as u64)?;
       let mut name_bytes = vec![0u8; name_len];
       cur.read_exact(&mut name_bytes)?;
       let name = String::from_utf8(name_bytes).map_err(|_| 
@@ -821,7 +861,8 @@ fn decode_instructions(mut cur: Cursor<&[u8]>) -> MResult<Vec<DecodedInstr>> {
         let fxn_id = cur.read_u64::<LittleEndian>()?;
         let dst = cur.read_u32::<LittleEndian>()?;
         let arg_count = cur.read_u32::<LittleEndian>()? as usize;
-        let mut args = Vec::with_capacity(arg_count);
+        // each argument takes four bytes of the instruction stream
+        let mut args = Vec::with_capacity(arg_count.min(cur.get_ref().len() / 4 + 1));
         for _ in 0..arg_count {
           let a = cur.read_u32::<LittleEndian>()?;
           args.push(a);
@@ -1012,6 +1053,13 @@ pub struct UnknownOpcodeError {
 impl MechErrorKind for UnknownOpcodeError {
   fn name(&self) -> &str { "UnknownOpcode" }
   fn message(&self) -> String { format!("Unknown opcode: {}", self.opcode) }
+}
+
+#[derive(Debug, Clone)]
+pub struct MalformedBytecodeError;
+impl MechErrorKind for MalformedBytecodeError {
+  fn name(&self) -> &str { "MalformedBytecode" }
+  fn message(&self) -> String { "Malformed bytecode: a section or constant could not be decoded".to_string() }
 }
 
 #[derive(Debug, Clone)]
